@@ -154,6 +154,21 @@ func replayScenario(c *Cfg, prop string, spec json.RawMessage) {
 		fmt.Println("cannot parse case:", err)
 		return
 	}
+	if cs.Family == "rerun-after-cancelled-run" {
+		x := scen.NewExec(cs.Scenario)
+		o0 := x.RunOnce()
+		o1 := x.RunOnce()
+		fmt.Printf("run 0 (cancelled inside callback #%d): errNil=%v err=%q\nrun 1 (live context): action=%q errNil=%v err=%q events=%v\n", o0.CancelSeq, o0.ErrNil, o0.ErrText, o1.Action, o1.ErrNil, o1.ErrText, len(o1.Events))
+		clean := cs.Scenario.Clone()
+		clean.Inject = scen.Inject{}
+		for _, f := range scen.Judge(clean, nil, &o1) {
+			if f.Prop == prop {
+				fmt.Printf(" * finding %s %s: %s\n", f.Prop, f.Key, f.Detail)
+				c.Rep.Violate(prop, prop+":after-cancelled-run:"+f.Key, f.Detail, cs)
+			}
+		}
+		return
+	}
 	outs, mrs := runScenario(cs.Scenario)
 	for i := range outs {
 		fmt.Printf("--- run %d\nmodel   : %v -> action=%q err=%q log=%v\n", i, mrs[i].Keys, mrs[i].Action, mrs[i].ErrID, mrs[i].Log)
